@@ -67,7 +67,10 @@ func goSer(b []byte) string {
 	return hex.EncodeToString(out.Bytes())
 }
 
+var historyDependent bool
+
 func goRomW(size, sd uint32, a, b []byte) (reply string, roundtripOK bool) {
+	historyDependent = false
 	img := make([]byte, size)
 	for i := range img {
 		img[i] = prng.Hash(uint64(sd), uint32(i))
@@ -96,6 +99,14 @@ func goRomW(size, sd uint32, a, b []byte) (reply string, roundtripOK bool) {
 	}
 	same := bytes.Equal(img, orig)
 	outside := bytes.Equal(img[:0x7FB0], orig[:0x7FB0]) && bytes.Equal(img[0x8000:], orig[0x8000:])
+	// history independence: a fresh ROM object over the same image, given the same Header, must write the same bytes
+	img2 := append([]byte{}, orig...)
+	if fresh, err := snes.NewROM("y", img2); err == nil {
+		fresh.Header = hb
+		if err := fresh.WriteHeader(); err == nil && !bytes.Equal(img2, img) {
+			historyDependent = true
+		}
+	}
 	b01 := func(x bool) string {
 		if x {
 			return "1"
@@ -271,6 +282,9 @@ func runHeader() {
 				bb = b
 			}
 			reply, rt := goRomW(sz, sd, b, bb)
+			if historyDependent {
+				addViolation("WriteHeader's result depends on earlier calls on the same ROM object (a fresh ROM with the same Header and image writes different bytes)", fmt.Sprintf("hdr romw %x %x %s %s", sz, sd, hx, hex.EncodeToString(bb)), "same bytes as a fresh object", "different bytes")
+			}
 			if !rt {
 				addViolation("ReadHeader then WriteHeader leaves the image byte-for-byte unchanged", fmt.Sprintf("hdr romw %x %x %s %s", sz, sd, hx, hx), "image unchanged", "image changed")
 			}
